@@ -102,7 +102,7 @@ Proof.
     rewrite (find_map r_cte (fun c => mem_nat (c_sq c) (amap_ids r s))).
     + destruct (find _ (rev (x_ctes x))); reflexivity.
     + intros c. simpl. rewrite amap_ids_r. apply mem_nat_map.
-  - rewrite amap_ids_r. rewrite <- map_rev. destruct (rev (amap_ids r s)); reflexivity.
+  - simpl. rewrite <- map_rev. destruct (rev (x_ctes x)); reflexivity.
 Qed.
 
 Lemma scan_ids_r x i : scan_ids (r_ctx x) (p i) = r_res (scan_ids x i).
